@@ -103,6 +103,26 @@ func runC02(c *Ctx) {
 		"only messages that a file container holds are observable through the public API; fields of other messages are checked only for not disturbing their neighbours",
 		"unpinned cases (DESIGN.md 2.4) are not compared: a narrow definition carrying its own type's invalid value, time/coordinate fields defined with another type, latitude of exactly +-2^30",
 	}
+	// Impl vs Contract for scalar fields (TLC, exhaustive over integer-like
+	// types x compatible definition types x byte orders x boundary patterns);
+	// the two pre-fix variants of the code must be refuted (non-vacuity)
+	for _, v := range [][3]string{{"FALSE", "FALSE", "TRUE"}, {"TRUE", "FALSE", "FALSE"}, {"FALSE", "TRUE", "FALSE"}} {
+		cfg := fmt.Sprintf("CONSTANTS\n PreFixBEShift = %s\n PreFixNoSignExt = %s\n Expect = %s\nINIT Init\nNEXT Next\n", v[0], v[1], v[2])
+		r := c.runTLC(TLCRun{Module: "MC_ValuesImpl", Cfg: cfg, Workers: 1, HeapGB: 4, Files: map[string][]byte{"profile.json": p.json(), "schema.json": sch.json()}})
+		if r.Exit != 0 {
+			if strings.Contains(r.Out, "is false") {
+				if v[2] == "TRUE" {
+					c.report("values-model", "TLC: the transcription of parseDataFields/parseFitField (ValuesImpl) disagrees with the value Contract for some scalar definition:\n"+c.tlcTail(r), nil)
+				} else {
+					c.die("ValuesImpl with a pre-fix defect switched on still agrees with the Contract: the model is vacuous\n%s", c.tlcTail(r))
+				}
+				continue
+			}
+			c.die("TLC MC_ValuesImpl exit %d\n%s", r.Exit, c.tlcTail(r))
+		}
+		c.account(r)
+	}
+	c.Cov["valuesimpl_type_pairs"] = 50
 	id := 0
 	var calls []*Call
 	// 1. device files
@@ -112,14 +132,18 @@ func runC02(c *Ctx) {
 	nfieldrec := 0
 	for _, s := range sys {
 		id++
-		cl := p.runCall(id, "decode", s.Bytes(), plain, CallOpts{}, true)
+		rs := plain
+		if id%4 == 1 {
+			rs = readScript{chunks: chunkScripts[1+id%(len(chunkScripts)-1)], cut: -1, fault: -1}
+		}
+		cl := p.runCall(id, "decode", s.Bytes(), rs, CallOpts{}, true)
 		cl.Note = "systematic"
 		calls = append(calls, cl)
 		nfieldrec += len(s.bounds)
 	}
 	// 2b. large definitions: many fields and many developer fields
 	for _, nf := range []int{0, 1, 85, 86, 170, 255} {
-		for _, nd := range []int{-1, 0, 1, 85, 86, 171, 255} {
+		for _, nd := range []int{-1, 0, 1, 4, 85, 86, 171, 255} {
 			arch := byte((nf + nd) & 1)
 			s := newStream(12, false)
 			s.FileId(0, arch, 4)
@@ -138,7 +162,11 @@ func runC02(c *Ctx) {
 			if nd >= 0 {
 				dev = []DevDef{}
 				for d := 0; d < nd; d++ {
-					dev = append(dev, DevDef{byte(d), byte(d % 3), 0})
+					sz := byte(d % 3)
+					if nd <= 5 || d%40 == 7 {
+						sz = byte(250 + d%6) // several hundred bytes of developer data per record
+					}
+					dev = append(dev, DevDef{byte(d), sz, 0})
 				}
 			}
 			gg := &generator{rng: newRng(c.Seed + int64(nf*1000+nd)), p: p, sch: sch, k: defaultKnobs(), now: 0x33000000}
@@ -159,7 +187,12 @@ func runC02(c *Ctx) {
 	n := c.pick(250, 4000)
 	for i := 0; i < n; i++ {
 		id++
-		cl := p.runCall(id, "decode", g.Generate().Bytes(), plain, CallOpts{}, true)
+		// every third stream arrives in small or odd chunks: the values must not depend on it
+		rs := plain
+		if i%3 == 1 {
+			rs = readScript{chunks: chunkScripts[1+i%(len(chunkScripts)-1)], cut: -1, fault: -1, withEOF: i%2 == 0}
+		}
+		cl := p.runCall(id, "decode", g.Generate().Bytes(), rs, CallOpts{}, true)
 		cl.Note = "generated"
 		calls = append(calls, cl)
 	}
